@@ -11,16 +11,24 @@ func init() {
 		Level: "exploration",
 		Rule: "random histories (create/update/patch/delete, accepted and rejected, 1-4 ops per transaction, value reuse, hand-overs) over schema K; " +
 			"after every transaction a structural monitor recomputes unique and set index contents from the entities and compares raw index buckets and index API reads; " +
-			"non-trivial = distinct (op kind, store, predicted outcome, population class, configuration, checker size) tuples",
+			"part (b): one parent with two sibling child stores (own unique and set indexes), entities with data in one / the other / both, operations through all three stores: after every operation the five raw index buckets equal what the raw entity buckets imply (no missing, stale or empty entries). non-trivial = distinct (op kind, store, predicted outcome, population class, configuration, checker size) tuples",
 		Assumptions: []string{"entity state is read through FindById and compared with the reference model first; the index expectation is derived from that verified state",
 			"a rejected operation's error is returned by the transaction body (the library's rollback contract)"},
 		Plan: func(tier core.Tier, seed int64) int {
 			if tier == core.Thorough {
-				return 60000
+				return 60000 + 48*20
 			}
-			return 640
+			return 640 + 48
 		},
 		Run: func(c *core.Ctx, idx int) {
+			nHist := 640
+			if c.Tier == core.Thorough {
+				nHist = 60000
+			}
+			if idx >= nHist {
+				siblingScenario(c, idx-nHist, "C03") // two sibling child stores with their own indexes, model-free index mirror
+				return
+			}
 			r := c.Rand()
 			cfg := kmodel.AllConfigs[idx%len(kmodel.AllConfigs)]
 			w := map[string]int{"create": 10, "update": 8, "patch": 8, "delete": 5, "deletewhere": 2}
